@@ -1,5 +1,4 @@
-import SciVerif.Drive.Util
+import SciVerif.Drive.C14
 open Lean SciVerif.Drive
 
-/-- C14 model driver: not built yet. -/
-def main : IO Unit := serve (fun _ => throw "C14: no model yet")
+def main : IO Unit := serve SciVerif.C14.Drive.handle
